@@ -7,6 +7,7 @@ of the highest power of x.
 """
 from __future__ import annotations
 
+import functools
 from typing import Dict, List, Optional, Sequence
 
 from . import gf2
@@ -113,7 +114,8 @@ def no_binomial_multiple_below(cfg: str, n: int) -> bool:
     return True
 
 
-def guaranteed_weights(cfg: str, codeword_bits: int) -> List[int]:
+@functools.lru_cache(maxsize=None)
+def _guaranteed_weights(cfg: str, codeword_bits: int) -> tuple:
     """Error weights (out of 1..3) that the cyclic-code mathematics guarantees to be detected in a word of
     ``codeword_bits`` = message + CRC bits.  weight 1: G has a constant term and more than one term; weight 2: the order
     of x modulo G is at least the word length; weight 3 (any odd weight): (x+1) divides G.  Anything else is not claimed."""
@@ -125,7 +127,11 @@ def guaranteed_weights(cfg: str, codeword_bits: int) -> List[int]:
         out.append(2)
     if x_plus_1_divides(cfg):
         out.append(3)
-    return out
+    return tuple(out)
+
+
+def guaranteed_weights(cfg: str, codeword_bits: int) -> List[int]:
+    return list(_guaranteed_weights(cfg, codeword_bits))
 
 
 def burst_is_guaranteed(cfg: str, burst_len: int) -> bool:
